@@ -420,7 +420,11 @@ class SliceNode(Node):
         )
 
     def get_unsafe_set(self):
-        return set()
+        # the bounds are plain json values and need no check, but the type the
+        # node names is audited like that of any other node
+        if self.is_self_safe():
+            return set()
+        return {self.module_name + "." + self.class_name}
 
 
 def object_get_state(obj: Any, save_context: SaveContext) -> dict[str, Any]:
